@@ -1,7 +1,7 @@
 //! C19 — the constraint solver honours fixed parameters and solves solvable systems
 use crate::build::*;
 use crate::engine::*;
-use crate::spec::*;
+
 use crate::{ensure, fail};
 use fidget_core::context::Context;
 use fidget_core::eval::MathFunction;
